@@ -325,3 +325,136 @@ def ref_events(text):
     if stack:
         raise SyntaxReject(lineno, "unclosed sections")
     return events
+
+
+# --------------------------------------------------------------------------
+# reading resources: directives, the %define namespace, includes  (DESIGN appendix A.1)
+
+
+class Reject(Exception):
+    """The reference reader refuses the text.
+
+    kind: syntax | subst-syntax | subst-missing | define-redefine | define-name |
+          include-missing | include-cycle | nesting
+    lineno / url: the culprit line (1-based in its own resource) where the model promises one.
+    """
+
+    def __init__(self, kind, lineno=None, url=None, detail=""):
+        Exception.__init__(self, "%s at %s line %s %s" % (kind, url, lineno, detail))
+        self.kind = kind
+        self.lineno = lineno
+        self.url = url
+        self.detail = detail
+
+
+def url_join(base, ref):
+    """Relative reference (plain names, 'sub/x', '../x') against a file:/// URL."""
+    if ":" in ref.split("/")[0] and len(ref.split(":")[0]) > 1:
+        return ref
+    if ref.startswith("/"):
+        return "file://" + ref
+    segs = base[len("file://"):].split("/")[:-1]
+    for part in ref.split("/"):
+        if part == "..":
+            if len(segs) > 1:
+                segs.pop()
+        elif part == ".":
+            continue
+        else:
+            segs.append(part)
+    return "file://" + "/".join(segs)
+
+
+def split_define(arg):
+    """'%define' argument -> (NAME, raw value)."""
+    i = 0
+    n = len(arg)
+    while i < n and not arg[i].isspace():
+        i += 1
+    name = arg[:i]
+    return name, lstrip_ws(arg[i:])
+
+
+def ref_read(resources, main_url, env=None, defs=None):
+    """Flatten a load into reading-order events.
+
+    resources: url -> text.  Returns (events, defs) where events are
+      ("open", type, name, lineno, url, is_empty) ("close", type, lineno, url)
+      ("key", key, value, lineno, url) ("import", package, lineno, url)
+      ("define", name, value, lineno, url)
+    Raises Reject / Unspecified.
+    """
+    env = env or {}
+    defs = {} if defs is None else defs
+    events = []
+    depth = [0]
+    active = []
+
+    def subst(text, lineno, url):
+        try:
+            return ref_subst(text, defs, env)
+        except SubstSyntax:
+            raise Reject("subst-syntax", lineno, url, text)
+        except SubstMissing as e:
+            raise Reject("subst-missing", lineno, url, e.name)
+
+    def read(url):
+        if url in active:
+            raise Reject("include-cycle", None, url)
+        active.append(url)
+        text = resources[url]
+        stack = []
+        lineno = 0
+        for raw in physical_lines(text):
+            lineno += 1
+            try:
+                ev = classify_line(raw)
+            except SyntaxReject as e:
+                raise Reject("syntax", lineno, url, e.why)
+            kind = ev[0]
+            if kind in ("blank", "comment"):
+                continue
+            if kind == "open":
+                events.append(("open", ev[1], ev[2], lineno, url, ev[3]))
+                if ev[3]:
+                    events.append(("close", ev[1], lineno, url))
+                else:
+                    stack.append(ev[1])
+            elif kind == "close":
+                if not stack:
+                    raise Reject("nesting", lineno, url, "unexpected section end")
+                if stack.pop() != ev[1]:
+                    raise Reject("nesting", lineno, url, "unbalanced section end")
+                events.append(("close", ev[1], lineno, url))
+            elif kind == "key":
+                value = ev[2]
+                if value != "":
+                    value = subst(value, lineno, url)
+                events.append(("key", ev[1], value, lineno, url))
+            elif kind == "define":
+                name, rawv = split_define(ev[1])
+                n = name.lower()
+                if not ref_isname(n):
+                    raise Reject("define-name", lineno, url, name)
+                if not ref_isname(name):
+                    raise Unspecified("U11")
+                v = subst(rawv, lineno, url)
+                if n in defs and defs[n] != v:
+                    raise Reject("define-redefine", lineno, url, n)
+                defs[n] = v
+                events.append(("define", n, v, lineno, url))
+            elif kind == "import":
+                events.append(("import", subst(strip_ws(ev[1]), lineno, url), lineno, url))
+            elif kind == "include":
+                target = url_join(url, subst(strip_ws(ev[1]), lineno, url))
+                if "#" in target:
+                    raise Reject("include-fragment", lineno, url, target)
+                if target not in resources:
+                    raise Reject("include-missing", lineno, url, target)
+                read(target)
+        if stack:
+            raise Reject("nesting", lineno, url, "unclosed sections")
+        active.pop()
+
+    read(main_url)
+    return events, defs
